@@ -807,8 +807,61 @@ class Interp:
             return self.read_byte(st, ptr.origin, ptr.off, ptr.mut)
         return VArray(tuple(self.read_byte(st, ptr.origin, ptr.off + i, ptr.mut) for i in range(width)), width)
 
+    def eval_promoted(self, st, pbody):
+        """evaluate a promoted constant body (straight-line) and return its value; locals it refers to are
+        moved to the heap so that references stay valid"""
+        locs = {}
+        fid = ("prom", fresh_id())
+
+        class F2:
+            pass
+        fr = Frame(fid, {"path": "<promoted>", "locals": pbody["locals"], "blocks": pbody["blocks"], "arg_count": 0},
+                   locs, 0, None, len(st.frames), None)
+        st.frames.append(fr)
+        try:
+            bi = 0
+            for _ in range(64):
+                blk = pbody["blocks"][bi]
+                for s_ in blk["stmts"]:
+                    self.exec_stmt(st, fr, s_)
+                t = blk["term"]
+                if t["t"] == "goto":
+                    bi = t["target"]
+                elif t["t"] == "assert":
+                    bi = t["target"]
+                else:
+                    break
+        finally:
+            st.frames.pop()
+        rv = locs.get(0)
+
+        def fix(v, d=0):
+            if isinstance(v, VRef) and v.fid == fid:
+                tgt = locs.get(v.local)
+                for p_ in v.projs:
+                    tgt = self.step_value(st, tgt, p_)
+                oid = ("promobj", fresh_id())
+                st.heap[oid] = fix(tgt, d + 1) if d < 4 else tgt
+                return VRef(0, oid, (), False)
+            if isinstance(v, VRegion) and v.origin and v.origin[0] == "place" and v.origin[1] == fid:
+                arr = locs.get(v.origin[2])
+                oid = ("promobj", fresh_id())
+                st.heap[oid] = arr
+                return VRegion(("place", 0, oid, v.origin[3]), v.off, v.len, False)
+            return v
+        return fix(rv)
+
     def const_value(self, st, k):
         t = self.rt(k["ty"])
+        if "promoted" in k and st.frames:
+            proms = st.frames[-1].body.get("promoted") or []
+            if k["promoted"] < len(proms):
+                try:
+                    v = self.eval_promoted(st, proms[k["promoted"]])
+                    if v is not None and not isinstance(v, VOpaque):
+                        return v
+                except Exception:
+                    pass
         if "int" in k:
             return VInt(Lin.const(k["int"]))
         if "bool" in k:
